@@ -111,16 +111,26 @@ def gen_unit(rng, kind, n, k, wide=False):
                 f = 10.0 ** rng.uniform(-6, 6)
                 v = [t * f for t in v]
             rows.append(v)
+        if wide and k >= 4 and rng.random() < 0.15:
+            rows[-1] = list(rows[0])     # a closed ring is a valid vertex list
         return rows
     s = rng.uniform(0.5, 2.0)
     if wide:
         s = 10.0 ** rng.uniform(-6, 6)
+        if rng.random() < 0.3:
+            s = -s          # a lift on the other sheet represents the same point
     if kind == "HPoly":
         pts = []
         while len(pts) < k:
             x = klein_point(rng, n)
             if all(dist2(x, y) >= 0.15 for y in pts):
                 pts.append(x)
+        if wide:
+            # every vertex with its own sign; sometimes a closed ring (last vertex = first)
+            rows = [hyp_rep(x, s if rng.random() < 0.7 else -s) for x in pts]
+            if k >= 4 and rng.random() < 0.15:
+                rows[-1] = list(rows[0])
+            return rows
         return [hyp_rep(x, s) for x in pts]
     if kind == "HSeg":
         while True:
